@@ -76,6 +76,8 @@ UPSTREAMS = {
     "san100": dict(cn="upstream.example", sans=["dns:h%d.upstream.example" % i for i in range(100)]),
     "ip-san": dict(cn="upstream.example", sans=["ip:203.0.113.5", "ip:2001:db8::5"]),
     "cn-is-ip": dict(cn="203.0.113.9"),
+    # dNSName SANs whose *text* is an IP literal - the very addresses used as identities (local address, IP SNI) and as server address
+    "dns-san-is-ip-text": dict(cn="upstream.example", sans=["dns:upstream.example", "dns:192.0.2.2", "dns:192.0.2.42", "dns:203.0.113.5", "dns:2001:db8::2", "dns:2001:db8::42"]),
     "wildcard": dict(cn="*.upstream.example", sans=["dns:*.upstream.example", "dns:upstream.example"]),
     # upstream wildcards in the SNI's own domain: zero, one or two labels above the identities *.example.com / a.b.example.com / my_host._tcp.example.com
     "wildcard-b.example.com": dict(cn="*.b.example.com", sans=["dns:*.b.example.com", "dns:b.example.com"]),
